@@ -14,6 +14,11 @@ open Beeb Beeb.Gen Beeb.MainL
     `++`/`--`, no `new`/`delete`, and calls only known side-effect-free accessors. -/
 theorem C19_asserts_pure : ∀ a ∈ assertSites, a.pure = true := by decide +kernel
 
+/-- **No code is compiled into one build only** (regenerated on every run): every preprocessor conditional that tests
+    `NDEBUG` guards nothing but `assert(...)` statements and `#include` lines.  (The pinned tree has no such conditional at
+    all; a check or a computation moved under `#ifndef NDEBUG` makes this fail.) -/
+theorem C19_ndebug_regions_pure : ∀ r ∈ ndebugRegions, r.pure = true := by decide +kernel
+
 /-- **dfs: the NDEBUG build behaves like the assertion build whenever the latter
     does not stop on a failed assertion** — same stdout, exit status, created files. -/
 theorem C19_dfs (fs : HostFs) (cols : Option Nat) (opts : List Opt) (rest : List Bytes)
